@@ -1,6 +1,7 @@
 package main
 
 import (
+	"bytes"
 	"context"
 	"encoding/binary"
 	"encoding/hex"
@@ -33,6 +34,31 @@ type opIn struct {
 	Status  uint8  `json:"status,omitempty"`  // conn respond: status byte
 	Err     int    `json:"err,omitempty"`     // error code (index into harnessErrs), 0 = nil
 	Payload string `json:"payload,omitempty"` // hex
+	Words   int    `json:"words,omitempty"`   // conn respond: the payload is Payload repeated this many times (0 = once)
+}
+
+// opPayload expands a (possibly repeated) payload.
+func opPayload(o opIn) []byte {
+	p := mustHex(o.Payload)
+	if o.Words > 1 {
+		p = bytes.Repeat(p, o.Words)
+	}
+	return p
+}
+
+// coqBytes prints long byte strings that are one 8-byte word repeated as
+// (rep (hx "word") n): Coq's literal parser is the expensive part of a case file.
+func coqBytes(b []byte) string {
+	if len(b) >= 64 && len(b)%8 == 0 {
+		same := true
+		for off := 8; off < len(b) && same; off += 8 {
+			same = bytes.Equal(b[off:off+8], b[:8])
+		}
+		if same {
+			return vh.App("rep", vh.Hex(b[:8]), vh.N(uint64(len(b)/8)))
+		}
+	}
+	return vh.Hex(b)
 }
 
 var harnessErrs = []error{nil, errors.New("verif: err 1"), errors.New("verif: err 2"), errors.New("verif: err 3")}
@@ -289,7 +315,44 @@ func classSet(m map[string]bool) string {
 // conn: conn.Conn over a synchronous pipe, scripted peer
 // ---------------------------------------------------------------------------------------
 
+// genConnBig: responses larger than the small slab classes, kept by the callers
+// while further large frames arrive (responses to other calls, duplicates for
+// answered ids), and re-read only when the case ends.
+func genConnBig(r *rand.Rand) input {
+	in := input{Kind: "conn"}
+	n := 2 + r.IntN(2)
+	words := func() int { return vh.Pick(r, 513, 520, 600, 513, 64, 500, 1100) }
+	stamp := func(k int) string {
+		return hex.EncodeToString(binary.BigEndian.AppendUint64(nil, 0xC26C26<<40|uint64(k)<<20|uint64(r.IntN(1<<20))))
+	}
+	for k := 0; k < n; k++ {
+		in.Ops = append(in.Ops, opIn{Op: "start", K: k, Payload: hex.EncodeToString(nonceBytes(r, k))})
+	}
+	w := words()
+	order := r.Perm(n)
+	for i, k := range order {
+		in.Ops = append(in.Ops, opIn{Op: "respond", ID: uint64(k + 1), Payload: stamp(k), Words: w})
+		if r.IntN(3) != 0 {
+			in.Ops = append(in.Ops, opIn{Op: "await", K: k})
+		}
+		if i == 0 && r.IntN(2) == 0 { // a duplicate for the answered id: dropped by the table, but it is one more large frame
+			in.Ops = append(in.Ops, opIn{Op: "respond", ID: uint64(k + 1), Payload: stamp(100 + k), Words: w})
+		}
+	}
+	// further traffic of the same size while the earlier results are still held
+	in.Ops = append(in.Ops, opIn{Op: "start", K: n, Payload: hex.EncodeToString(nonceBytes(r, n))},
+		opIn{Op: "respond", ID: uint64(n + 1), Payload: stamp(n), Words: w},
+		opIn{Op: "await", K: n})
+	if r.IntN(3) == 0 {
+		in.Ops = append(in.Ops, opIn{Op: vh.Pick(r, "reset", "close"), Err: r.IntN(4)})
+	}
+	return in
+}
+
 func genConn(r *rand.Rand) input {
+	if r.IntN(8) == 0 {
+		return genConnBig(r)
+	}
 	in := input{Kind: "conn"}
 	n := 4 + r.IntN(12)
 	next := uint64(0)
@@ -396,8 +459,8 @@ const connStepTimeout = 5 * time.Second
 
 func runConn(in input) vh.Result {
 	clientEnd, serverEnd := net.Pipe()
-	limits := core.Limits{MaxFrameBodyBytes: 1 << 16, MaxQueuedBytesPerConn: 1 << 20, MaxQueuedItemsPerConn: 256,
-		MaxBatchBytes: 1 << 16, MaxBatchFrames: 8}
+	limits := core.Limits{MaxFrameBodyBytes: 1 << 20, MaxQueuedBytesPerConn: 4 << 20, MaxQueuedItemsPerConn: 256,
+		MaxBatchBytes: 1 << 20, MaxBatchFrames: 8}
 	c := conn.New(clientEnd, conn.Config{Limits: limits, NodeID: 2}, nil)
 	c.Start()
 	down := false
@@ -429,10 +492,13 @@ func runConn(in input) vh.Result {
 			return nil, eHang
 		}
 	}
-	coOutcome := func(k int) string {
+	// What Call returned is the caller's own: its bytes are READ only when the case
+	// ends, after all later traffic, so observations are formatted lazily.
+	coOutcome := func(k int) func() string {
 		msg, code := collect(k)
-		return vh.App("CoOutcome", vh.Hex(msg), vh.N(uint64(code)))
+		return func() string { return vh.App("CoOutcome", coqBytes(msg), vh.N(uint64(code))) }
 	}
+	now := func(s string) func() string { return func() string { return s } }
 	start := func(k int, payload []byte, ctx context.Context, cancel context.CancelFunc) {
 		ch := make(chan callResult, 1)
 		results[k], cancels[k] = ch, cancel
@@ -464,8 +530,11 @@ func runConn(in input) vh.Result {
 	}
 
 	var script, obsList []string
+	var ops []string
+	var obs []func() string
 	for _, o := range in.Ops {
-		var op, ob string
+		var op string
+		var ob func() string
 		switch o.Op {
 		case "start":
 			payload := mustHex(o.Payload)
@@ -478,9 +547,9 @@ func runConn(in input) vh.Result {
 				_ = serverEnd.SetReadDeadline(time.Now().Add(connStepTimeout))
 				f, err := wire.ReadFrame(serverEnd, limits.MaxFrameBodyBytes)
 				if err != nil || f.Header.Kind != core.FrameKindRPCRequest {
-					ob = vh.App("CoRead", vh.N(^uint64(0)), vh.Hex([]byte(fmt.Sprint(err))))
+					ob = now(vh.App("CoRead", vh.N(^uint64(0)), vh.Hex([]byte(fmt.Sprint(err)))))
 				} else {
-					ob = vh.App("CoRead", vh.N(f.Header.RequestID), vh.Hex(f.Body.Bytes()))
+					ob = now(vh.App("CoRead", vh.N(f.Header.RequestID), vh.Hex(f.Body.Bytes())))
 				}
 			}
 		case "start_canceled":
@@ -491,14 +560,17 @@ func runConn(in input) vh.Result {
 			start(o.K, payload, ctx, cancel)
 			ob = coOutcome(o.K)
 		case "respond", "respond_empty":
-			payload := mustHex(o.Payload)
+			payload := opPayload(o)
 			body := append([]byte{o.Status}, payload...)
 			if o.Op == "respond_empty" {
 				op, body = vh.App("CRespondEmpty", vh.N(o.ID)), nil
 			} else {
-				op = vh.App("CRespond", vh.N(o.ID), vh.N(uint64(o.Status)), vh.Hex(payload))
+				op = vh.App("CRespond", vh.N(o.ID), vh.N(uint64(o.Status)), coqBytes(payload))
+				if len(payload) > 4096 {
+					classes["big-response"] = true
+				}
 			}
-			ob = vh.App("CoWrite", vh.B(writeResponse(o.ID, body)))
+			ob = now(vh.App("CoWrite", vh.B(writeResponse(o.ID, body))))
 		case "cancel", "await":
 			if o.Op == "cancel" {
 				op = vh.App("CCancel", vh.N(uint64(o.K)))
@@ -506,7 +578,7 @@ func runConn(in input) vh.Result {
 				op = vh.App("CAwait", vh.N(uint64(o.K)))
 			}
 			if results[o.K] == nil || collected[o.K] {
-				ob = "CoNone"
+				ob = now("CoNone")
 			} else {
 				if o.Op == "cancel" {
 					cancels[o.K]()
@@ -514,14 +586,14 @@ func runConn(in input) vh.Result {
 				ob = coOutcome(o.K)
 			}
 		case "reset":
-			op, ob = "CReset", "CoNone"
+			op, ob = "CReset", now("CoNone")
 			if !down {
 				_ = serverEnd.Close()
 				waitDown()
 				classes["reset"] = true
 			}
 		case "garbage":
-			op, ob = "CGarbage", "CoNone"
+			op, ob = "CGarbage", now("CoNone")
 			if !down {
 				bad := wire.EncodeHeader(wire.Header{Kind: core.FrameKindRPCResponse, Priority: core.PriorityRPC})
 				bad[0] ^= 0xff
@@ -531,7 +603,7 @@ func runConn(in input) vh.Result {
 				classes["garbage"] = true
 			}
 		case "close":
-			op, ob = vh.App("CClose", vh.N(uint64(o.Err))), "CoNone"
+			op, ob = vh.App("CClose", vh.N(uint64(o.Err))), now("CoNone")
 			if !down {
 				c.Close(harnessErrs[o.Err])
 				_ = serverEnd.Close()
@@ -541,8 +613,8 @@ func runConn(in input) vh.Result {
 		default:
 			panic("unknown conn op " + o.Op)
 		}
-		script = append(script, vh.Pair(op, ob))
-		obsList = append(obsList, ob)
+		ops = append(ops, op)
+		obs = append(obs, ob)
 	}
 	// end of script: stop the conn and collect whatever is left
 	c.Close(nil)
@@ -555,10 +627,25 @@ func runConn(in input) vh.Result {
 		}
 	}
 	sort.Ints(ks)
+	type fin struct {
+		k    int
+		msg  []byte
+		code int
+	}
+	var fins []fin
 	for _, k := range ks {
 		msg, code := collect(k)
 		cancels[k]()
-		final = append(final, vh.Pair(vh.N(uint64(k)), vh.Pair(vh.Hex(msg), vh.N(uint64(code)))))
+		fins = append(fins, fin{k, msg, code})
+	}
+	// only now are the retained results looked at
+	for i := range ops {
+		ob := obs[i]()
+		script = append(script, vh.Pair(ops[i], ob))
+		obsList = append(obsList, ob)
+	}
+	for _, f := range fins {
+		final = append(final, vh.Pair(vh.N(uint64(f.k)), vh.Pair(coqBytes(f.msg), vh.N(uint64(f.code)))))
 	}
 	for _, cancel := range cancels {
 		cancel()
@@ -580,6 +667,22 @@ type stressCall struct {
 	SleepMS   uint8 `json:"sleep_ms"`   // handler delay for mode 2
 	TimeoutMS int   `json:"timeout_ms"` // caller deadline; 0 = none
 	CancelMS  int   `json:"cancel_ms"`  // caller cancels after this long; 0 = never
+	Words     int   `json:"words"`      // the reply carries this many extra 8-byte copies of the nonce (size = 9 + 8*Words)
+}
+
+// stressReply is what the handler / echo peer answers: "R" ‖ nonce ‖ nonce × words.
+func stressReply(nonce []byte, words int) []byte {
+	out := make([]byte, 0, 9+8*words)
+	out = append(append(out, 'R'), nonce...)
+	for i := 0; i < words; i++ {
+		out = append(out, nonce...)
+	}
+	return out
+}
+
+func stressRequest(nonce []byte, c stressCall) []byte {
+	req := append(append([]byte(nil), nonce...), c.Mode, c.SleepMS)
+	return binary.BigEndian.AppendUint16(req, uint16(c.Words))
 }
 
 type stress struct {
@@ -607,6 +710,19 @@ func genStress(r *rand.Rand, tier string) input {
 	st := &stress{Salt: r.Uint32(), Conc: vh.Pick(r, 4, 8, 16, 16, 32), Pool: vh.Pick(r, 0, 0, 1, 1, 2)}
 	for i := 0; i < n; i++ {
 		c := stressCall{Mode: vh.Pick(r, uint8(0), 0, 0, 1, 2, 2), SleepMS: uint8(r.IntN(6))}
+		// reply sizes across the slab classes (512 / 4096 / 65536 / 1 MiB): 9 B ... ~72 KiB
+		switch r.IntN(12) {
+		case 0, 1:
+			c.Words = 60 // 489 B
+		case 2:
+			c.Words = 500 // ~4 KiB
+		case 3, 4, 5:
+			c.Words = vh.Pick(r, 512, 513, 1024, 1024, 2000) // just over 4 KiB ... 16 KiB
+		case 6:
+			c.Words = vh.Pick(r, 8100, 8190, 9000) // ~64 KiB, and the 1 MiB class
+		case 7:
+			c.Words = 1
+		}
 		switch r.IntN(5) {
 		case 0:
 			c.TimeoutMS = 1 + r.IntN(4)
@@ -630,8 +746,8 @@ func runStress(in input) vh.Result {
 		// frame with the handler's reply under the same request id, from several
 		// goroutines so that responses overtake each other
 		clientEnd, serverEnd := net.Pipe()
-		limits := core.Limits{MaxFrameBodyBytes: 1 << 16, MaxQueuedBytesPerConn: 1 << 20, MaxQueuedItemsPerConn: 1024,
-			MaxBatchBytes: 1 << 16, MaxBatchFrames: 16}
+		limits := core.Limits{MaxFrameBodyBytes: 1 << 20, MaxQueuedBytesPerConn: 8 << 20, MaxQueuedItemsPerConn: 1024,
+			MaxBatchBytes: 1 << 20, MaxBatchFrames: 16}
 		c := conn.New(clientEnd, conn.Config{Limits: limits, NodeID: 2}, nil)
 		c.Start()
 		defer c.Close(nil)
@@ -647,11 +763,11 @@ func runStress(in input) vh.Result {
 				f.Body.Release()
 				hdr := f.Header
 				go func() {
-					if len(payload) != 10 {
+					if len(payload) != 12 {
 						return
 					}
 					nonce, mode, sleep := payload[:8], payload[8], payload[9]
-					status, body := wire.ResponseOK, append([]byte("R"), nonce...)
+					status, body := wire.ResponseOK, stressReply(nonce, int(binary.BigEndian.Uint16(payload[10:])))
 					switch mode {
 					case 1:
 						status, body = wire.ResponseErr, append([]byte("E"), nonce...)
@@ -679,7 +795,7 @@ func runStress(in input) vh.Result {
 	}
 	defer server.Stop()
 	handler := func(ctx context.Context, payload []byte) ([]byte, error) {
-		if len(payload) != 10 {
+		if len(payload) != 12 {
 			return nil, fmt.Errorf("bad request length %d", len(payload))
 		}
 		nonce, mode, sleep := payload[:8], payload[8], payload[9]
@@ -689,7 +805,7 @@ func runStress(in input) vh.Result {
 		case 2:
 			time.Sleep(time.Duration(sleep) * time.Millisecond)
 		}
-		return append([]byte("R"), nonce...), nil
+		return stressReply(nonce, int(binary.BigEndian.Uint16(payload[10:]))), nil
 	}
 	if err := server.Handle(7, handler, transport.ServiceOptions{Concurrency: 4, QueueSize: 1024, MaxQueueBytes: 8 << 20}); err != nil {
 		panic(err)
@@ -753,7 +869,7 @@ func stressCalls(st *stress, doCall func(ctx context.Context, i int, req []byte)
 					ctx, cancel = context.WithTimeout(context.Background(), time.Duration(call.TimeoutMS)*time.Millisecond)
 				}
 				defer cancel()
-				req := append(append([]byte(nil), nonce...), call.Mode, call.SleepMS)
+				req := stressRequest(nonce, call)
 				<-gate
 				if call.CancelMS > 0 {
 					t := time.AfterFunc(time.Duration(call.CancelMS)*time.Millisecond, cancel)
@@ -769,11 +885,62 @@ func stressCalls(st *stress, doCall func(ctx context.Context, i int, req []byte)
 	wg.Wait()
 	close(done)
 
+	// Every response is still held by its caller.  More traffic of the large
+	// sizes goes through the same process, and only then are the held bytes read.
+	maxWords := 0
+	for _, c := range st.Calls {
+		maxWords = max(maxWords, c.Words)
+	}
+	if maxWords > 0 {
+		var extra sync.WaitGroup
+		for j := 0; j < 6; j++ {
+			extra.Add(1)
+			go func(j int) {
+				defer extra.Done()
+				ctx, cancel := context.WithTimeout(context.Background(), 400*time.Millisecond)
+				defer cancel()
+				nonce := binary.BigEndian.AppendUint32(binary.BigEndian.AppendUint32(nil, ^st.Salt), uint32(j))
+				words := maxWords
+				if j%2 == 1 {
+					words = 513
+				}
+				_, _ = doCall(ctx, j, stressRequest(nonce, stressCall{Words: words}))
+			}(j)
+		}
+		extra.Wait()
+	}
+
 	classes := map[string]int{}
 	calls := make([]string, len(outs))
+	big, held := 0, 0
 	for i, o := range outs {
-		calls[i] = vh.Pair(vh.Pair(vh.Hex(nonces[i]), vh.N(uint64(st.Calls[i].Mode))), coqOutcome(o.payload, o.err))
-		_, code := errCode(o.err)
+		// the retained bytes, as they are NOW: head, length, and the distinct 8-byte
+		// words after the head
+		msg, code := errCode(o.err)
+		if o.err == nil {
+			msg = o.payload
+		}
+		head, rest := msg, []byte(nil)
+		if len(msg) > 9 {
+			head, rest = msg[:9], msg[9:]
+		}
+		var stamps []string
+		seen := map[string]bool{}
+		for off := 0; off < len(rest); off += 8 {
+			w := string(rest[off:min(off+8, len(rest))])
+			if !seen[w] {
+				seen[w] = true
+				stamps = append(stamps, vh.Hex([]byte(w)))
+			}
+		}
+		if o.err == nil && len(msg) > 4096 {
+			big++
+		}
+		if o.err == nil {
+			held++
+		}
+		calls[i] = vh.App("SCall", vh.Hex(nonces[i]), vh.N(uint64(st.Calls[i].Mode)), vh.N(uint64(st.Calls[i].Words)),
+			vh.Hex(head), vh.N(uint64(code)), vh.N(uint64(len(msg))), vh.List(stamps))
 		classes[fmt.Sprint(code)]++
 	}
 	ok, local := classes["0"]+classes[fmt.Sprint(eRemote)], 0
@@ -786,12 +953,15 @@ func stressCalls(st *stress, doCall func(ctx context.Context, i int, req []byte)
 	if local > 0 {
 		class = "stress:answered+local-errors"
 	}
+	if big > 0 {
+		class += "+held>4KiB"
+	}
 	if ok == 0 {
 		class = "stress:none-answered"
 	}
 	return vh.Result{
 		Coq:     vh.App("C26Stress", vh.List(calls)),
-		Obs:     map[string]any{"outcome_classes": classes},
+		Obs:     map[string]any{"outcome_classes": classes, "held": held, "held_over_4KiB": big},
 		Class:   class,
 		Trivial: len(outs) == 0,
 	}
